@@ -751,6 +751,40 @@ class Interp:
         v = self.eval(node.value, env)
         for t in node.targets:
             self.assign(t, v, env, node)
+            if isinstance(t, ast.Name) and self.tc is not None and t.id in self.tc.ghost_after and not self.ctx.shape_mode \
+                    and self.depth <= 1:
+                self.run_ghost(self.tc.ghost_after[t.id], env, node, t.id)
+
+    def run_ghost(self, ghost, env, node, label):
+        """ghost code of the contract: intermediate assertions and inductions, proved here and then assumed"""
+        ctx = self.ctx
+        for cmd in ghost(View(env)):
+            kind = cmd[0]
+            if kind == "assert":
+                _, name, f = cmd
+                ctx.oblige("ghost.assert", "%s.%s" % (label, name), f, node)
+            elif kind == "induct":
+                _, name, lo, hi, P = cmd
+                ctx.oblige("ghost.induct.base", "%s.%s" % (label, name), Implies(compare("<", lo, hi), P(lo)), node)
+                i = SInt(z3.Int(fresh("ind")))
+                with ctx.scope():
+                    ctx.assume(And(compare("<=", lo, i), compare("<", arith("+", i, 1), hi)))
+                    ctx.assume(P(i))
+                    ctx.oblige("ghost.induct.step", "%s.%s" % (label, name), P(arith("+", i, 1)), node)
+                from .sym import ForAll
+                ctx.assume(ForAll(lo, hi, P))
+            elif kind == "induct_down":
+                _, name, lo, hi, P = cmd
+                ctx.oblige("ghost.induct.base", "%s.%s" % (label, name), Implies(compare("<", lo, hi), P(arith("-", hi, 1))), node)
+                i = SInt(z3.Int(fresh("ind")))
+                with ctx.scope():
+                    ctx.assume(And(compare("<=", lo, i), compare("<", arith("+", i, 1), hi)))
+                    ctx.assume(P(arith("+", i, 1)))
+                    ctx.oblige("ghost.induct.step", "%s.%s" % (label, name), P(i), node)
+                from .sym import ForAll
+                ctx.assume(ForAll(lo, hi, P))
+            else:
+                raise CheckerError("unknown ghost command %r" % (kind,))
 
     def s_AnnAssign(self, node, env):
         if node.value is not None:
